@@ -12,6 +12,7 @@ Top-level postconditions are taken from docs/user/sequencer_HOWTO.md (the three
 rules) and from the property statement, not from what the loops happen to do.
 """
 MODULE = "tel2puml/otel_to_pv/sequence_otel.py"
+FILES = {"": MODULE, "unix_nano_to_pv_string": "tel2puml/utils.py"}
 
 RECORDS = {
     "OTelEvent": {
@@ -24,6 +25,11 @@ RECORDS = {
     },
     "OTelEventTypeMap": {
         "fields": {"mapped_event_type": "str", "child_event_types": "set[str]"},
+    },
+    "PVEvent": {
+        "struct": True,
+        "fields": {"jobId": "str", "eventId": "str", "timestamp": "str", "previousEventIds": "list[str]",
+                   "applicationName": "str", "jobName": "str", "eventType": "str"},
     },
 }
 
@@ -147,6 +153,69 @@ CONTRACTS = {
             "heap_same": "forall(lambda e: e.event_type == old(e.event_type), 'OTelEvent')",
         }}},
     },
+    "convert_otel_event_stream_to_event_id_to_otelevent_map": {
+        "raises": {"OTelTreeDisconnectedError":
+                   "any(otel_event_stream[p].parent_event_id is not None and not any(otel_event_stream[q].event_id == otel_event_stream[p].parent_event_id "
+                   "for q in range(len(otel_event_stream))) for p in range(len(otel_event_stream)))"},
+        "ensures": {
+            "has_all": "all(otel_event_stream[p].event_id in result for p in range(len(otel_event_stream)))",
+            "only": "all(any(otel_event_stream[p].event_id == k for p in range(len(otel_event_stream))) for k in result)",
+            "keyed_by_id": "all(result[k].event_id == k for k in result)",
+            "from_stream": "all(any(result[k] is otel_event_stream[p] for p in range(len(otel_event_stream))) for k in result)",
+        },
+        "loops": {0: {"index": "i", "invariant": {
+            "has_all": "all(otel_event_stream[p].event_id in event_id_to_otel_event_map for p in range(i))",
+            "only": "all(any(otel_event_stream[p].event_id == k for p in range(i)) for k in event_id_to_otel_event_map)",
+            "keyed_by_id": "all(event_id_to_otel_event_map[k].event_id == k for k in event_id_to_otel_event_map)",
+            "from_stream": "all(any(event_id_to_otel_event_map[k] is otel_event_stream[p] for p in range(i)) for k in event_id_to_otel_event_map)",
+            "parents_in": "all(otel_event_stream[p].parent_event_id is None or otel_event_stream[p].parent_event_id in parent_event_ids for p in range(i))",
+            "parents_only": "forall(lambda x: implies(x in parent_event_ids, any(otel_event_stream[p].parent_event_id is not None and otel_event_stream[p].parent_event_id == x for p in range(i))), 'str')",
+        }}},
+        "locals": {"parent_event_ids": "set[str]", "event_id_to_otel_event_map": "dict[str, OTelEvent]"},
+    },
+    # the C16 contract of this function lives in contracts/c16.py; here it is only a pure symbol
+    "unix_nano_to_pv_string": {"trusted": True, "pure": True},
+    "sequence_otel_event_ancestors": {
+        "pure": True, "trusted": True,   # replaced below by its own contract once the LINKS specification is in place
+        "returns": "dict[str, list[str]]",
+    },
+    "sequence_otel_event_job": {
+        "generator": True,
+        "returns": "list[PVEvent]",
+        "raises": {
+            "ValueError": "len([e for e in event_id_to_event_map.values() if e.parent_event_id is None]) != 1",
+            "KeyError": "len([e for e in event_id_to_event_map.values() if e.parent_event_id is None]) == 1 and "
+                        "any(k not in sequence_otel_event_ancestors(get_root_event_from_event_id_to_event_map(event_id_to_event_map), "
+                        "event_id_to_event_map, None, async_flag, event_to_async_group_map if event_to_async_group_map is not None else {}) "
+                        "for k in event_id_to_event_map)",
+        },
+        "ensures": {
+            # "the emitted PV job contains each span exactly once with its job id, workflow name, type, application and end time"
+            "one_each": "[p['eventId'] for p in result] == list(event_id_to_event_map)",
+            "fields": "all(result[q]['jobId'] == event_id_to_event_map[list(event_id_to_event_map)[q]].job_id "
+                      "and result[q]['jobName'] == event_id_to_event_map[list(event_id_to_event_map)[q]].job_name "
+                      "and result[q]['eventType'] == event_id_to_event_map[list(event_id_to_event_map)[q]].event_type "
+                      "and result[q]['applicationName'] == event_id_to_event_map[list(event_id_to_event_map)[q]].application_name "
+                      "and result[q]['timestamp'] == unix_nano_to_pv_string(event_id_to_event_map[list(event_id_to_event_map)[q]].end_timestamp) "
+                      "for q in range(len(event_id_to_event_map)))",
+            "links": "all(result[q]['previousEventIds'] == sequence_otel_event_ancestors("
+                     "get_root_event_from_event_id_to_event_map(event_id_to_event_map), event_id_to_event_map, None, async_flag, "
+                     "event_to_async_group_map if event_to_async_group_map is not None else {})[list(event_id_to_event_map)[q]] "
+                     "for q in range(len(event_id_to_event_map)))",
+        },
+        "loops": {0: {"index": "i", "invariant": {
+            "count": "len(yielded) == i",
+            "ids": "all(yielded[q]['eventId'] == list(event_id_to_event_map)[q] for q in range(i))",
+            "fields": "all(yielded[q]['jobId'] == event_id_to_event_map[list(event_id_to_event_map)[q]].job_id "
+                      "and yielded[q]['jobName'] == event_id_to_event_map[list(event_id_to_event_map)[q]].job_name "
+                      "and yielded[q]['eventType'] == event_id_to_event_map[list(event_id_to_event_map)[q]].event_type "
+                      "and yielded[q]['applicationName'] == event_id_to_event_map[list(event_id_to_event_map)[q]].application_name "
+                      "and yielded[q]['timestamp'] == unix_nano_to_pv_string(event_id_to_event_map[list(event_id_to_event_map)[q]].end_timestamp) "
+                      "for q in range(i))",
+            "links": "all(yielded[q]['previousEventIds'] == event_id_to_previous_event_ids[list(event_id_to_event_map)[q]] for q in range(i))",
+            "all_linked": "all(list(event_id_to_event_map)[q] in event_id_to_previous_event_ids for q in range(i))",
+        }}},
+    },
 }
 
 LEMMA_MAXEND_UPPER = {
@@ -180,7 +249,8 @@ LEMMA_MAXEND_APP = {
 
 ORDER = ["order_groups_by_start_timestamp", LEMMA_MAXEND_UPPER, LEMMA_MAXEND_ATTAINED, LEMMA_MAXEND_APP,
          "sequence_groups_of_otel_events_asynchronously", "group_events_using_async_information", "get_root_event_from_event_id_to_event_map",
-         "update_event_type_based_on_children"]
+         "update_event_type_based_on_children", "unix_nano_to_pv_string", "sequence_otel_event_ancestors", "sequence_otel_event_job",
+         "convert_otel_event_stream_to_event_id_to_otelevent_map"]
 
 
 def setup(V):
@@ -215,3 +285,247 @@ def native_env(nat):
         kb = sorted(id(x) if hasattr(x, "__dict__") else hash(x) for x in b)
         return ka == kb
     return {"count": count, "perm": perm}
+
+
+# ----------------------------------------------------------------------------- native generators / replay encoding
+MUTABLE_FIELDS = {"OTelEvent": ["event_type"]}
+
+
+def _types(nat):
+    import importlib
+    t = importlib.import_module("tel2puml.otel_to_pv.otel_to_pv_types")
+    return t.OTelEvent, t.OTelEventTypeMap
+
+
+def mk_event(nat, eid, start, end, etype=None, parent=None, children=None, job="j1", name="wf"):
+    OTelEvent, _ = _types(nat)
+    return OTelEvent(job_name=name, job_id=job, event_type=etype or f"t_{eid}", event_id=eid, start_timestamp=start, end_timestamp=end,
+                     application_name="app", parent_event_id=parent, child_event_ids=children)
+
+
+def encode(x, reg):
+    cls = type(x).__name__
+    if cls == "OTelEvent":
+        reg[x.event_id] = x.model_dump()
+        return {"__otel__": x.event_id}
+    if cls == "OTelEventTypeMap":
+        return {"__tmap__": {"mapped_event_type": x.mapped_event_type, "child_event_types": sorted(x.child_event_types)}}
+    if isinstance(x, dict):
+        return {"__dict__": [[k, encode(v, reg)] for k, v in x.items()]}
+    if isinstance(x, (list, tuple)):
+        return [encode(v, reg) for v in x]
+    if isinstance(x, (set, frozenset)):
+        return {"__set__": sorted(x)}
+    return x
+
+
+def decode(nat, x, objs):
+    OTelEvent, OTelEventTypeMap = _types(nat)
+    if isinstance(x, dict) and "__otel__" in x:
+        return objs[x["__otel__"]]
+    if isinstance(x, dict) and "__tmap__" in x:
+        return OTelEventTypeMap(mapped_event_type=x["__tmap__"]["mapped_event_type"], child_event_types=set(x["__tmap__"]["child_event_types"]))
+    if isinstance(x, dict) and "__dict__" in x:
+        return {k: decode(nat, v, objs) for k, v in x["__dict__"]}
+    if isinstance(x, dict) and "__set__" in x:
+        return set(x["__set__"])
+    if isinstance(x, list):
+        return [decode(nat, v, objs) for v in x]
+    return x
+
+
+def _enc(args):
+    reg = {}
+    body = {k: encode(v, reg) for k, v in args.items()}
+    return {"registry": reg, "args": body}
+
+
+def _dec(nat, e):
+    OTelEvent, _ = _types(nat)
+    objs = {k: OTelEvent(**v) for k, v in e["registry"].items()}
+    return {k: decode(nat, v, objs) for k, v in e["args"].items()}
+
+
+class _Same(dict):
+    def __missing__(self, k):
+        return _enc
+
+ENCODE = _Same()
+
+
+class _SameD(dict):
+    def __missing__(self, k):
+        return _dec
+
+DECODE = _SameD()
+
+_GRID = [(s, e) for s in range(5) for e in range(s, 5)]
+
+
+def _interval_sets(n):
+    """all n-tuples of intervals on the 0..4 grid with pairwise distinct start times"""
+    import itertools
+    for combo in itertools.product(_GRID, repeat=n):
+        if len({s for s, _ in combo}) == n:
+            yield combo
+
+
+def _small_async(nat):
+    import itertools
+    for n in (1, 2, 3):
+        for combo in _interval_sets(n):
+            evs = [mk_event(nat, f"e{i}", s, e) for i, (s, e) in enumerate(combo)]
+            yield {"groups": [[ev] for ev in evs]}
+            if n == 3:   # one prior-information group of two (not necessarily overlapping) + a singleton
+                for a, b in ((0, 1), (0, 2), (1, 2)):
+                    c = 3 - a - b
+                    yield {"groups": [[evs[a], evs[b]], [evs[c]]]}
+    yield {"groups": []}
+
+
+def _rand_events(nat, rng, n, tmax=12, types=("A", "B", "C", "D")):
+    starts = rng.sample(range(tmax), n)
+    return [mk_event(nat, f"e{i}", s, s + rng.randrange(0, tmax // 2), etype=rng.choice(types)) for i, s in enumerate(starts)]
+
+
+def _rand_groups(nat, rng, allow_empty=False):
+    evs = _rand_events(nat, rng, rng.randrange(0, 7))
+    rng.shuffle(evs)
+    groups = []
+    while evs:
+        k = rng.randrange(1, 4)
+        groups.append(evs[:k])
+        evs = evs[k:]
+    if allow_empty and rng.random() < 0.15:
+        groups.insert(rng.randrange(0, len(groups) + 1), [])
+    return groups
+
+
+def _gen_group_events(nat, rng, n):
+    for _ in range(n):
+        evs = _rand_events(nat, rng, rng.randrange(0, 6))
+        gids = ["g1", "g2", "g3"]
+        m = {t: rng.choice(gids) for t in ("A", "B", "C", "D", "E") if rng.random() < 0.5}
+        yield {"events": evs, "async_event_types": m}
+
+
+def _small_group_events(nat):
+    import itertools
+    maps = [{}, {"A": "g1"}, {"A": "g1", "B": "g1"}, {"A": "g1", "B": "g2"}, {"Z": "g9"}, {"A": "g1", "Z": "g9"}, {"A": "g1", "B": "g1", "Z": "g2"}]
+    for n in range(0, 4):
+        for types in itertools.product("ABC", repeat=n):
+            evs = [mk_event(nat, f"e{i}", i, i + 1, etype=t) for i, t in enumerate(types)]
+            for m in maps:
+                yield {"events": evs, "async_event_types": dict(m)}
+
+
+def _gen_root(nat, rng, n):
+    for _ in range(n):
+        k = rng.randrange(0, 5)
+        evs = {}
+        for i in range(k):
+            evs[f"e{i}"] = mk_event(nat, f"e{i}", i, i + 1, parent=None if rng.random() < 0.35 else "e0")
+        yield {"event_id_to_event_map": evs}
+
+
+def _gen_rename(nat, rng, n):
+    _, OTelEventTypeMap = _types(nat)
+    for _ in range(n):
+        k = rng.randrange(1, 5)
+        types = ["A", "B", "C", "X"]
+        evs = {f"e{i}": mk_event(nat, f"e{i}", i, i + 1, etype=rng.choice(types), parent=None if i == 0 else "e0") for i in range(k)}
+        kids = [f"e{i}" for i in range(1, k)]
+        if rng.random() < 0.15:
+            kids.insert(rng.randrange(0, len(kids) + 1), "missing")
+        evs["e0"].child_event_ids = kids if rng.random() < 0.9 else None
+        info = OTelEventTypeMap(mapped_event_type="M", child_event_types={t for t in types if rng.random() < 0.4})
+        yield {"otel_event": evs["e0"], "otel_events_job": evs, "event_type_map_information": info}
+
+
+def _gen_stream(nat, rng, n):
+    for _ in range(n):
+        k = rng.randrange(0, 6)
+        ids = [f"e{i}" for i in range(k)]
+        evs = []
+        for i, eid in enumerate(ids):
+            r = rng.random()
+            parent = None if i == 0 or r < 0.2 else (rng.choice(ids) if r < 0.85 else "ghost")
+            evs.append(mk_event(nat, eid, i, i + 1, parent=parent))
+        rng.shuffle(evs)
+        yield {"otel_event_stream": evs}
+
+
+def trees(nat, n_max, async_types=False):
+    """all rooted trees with up to n_max spans (children lists in every order of insertion), intervals drawn from a
+    small grid with distinct sibling start times; yields event_id -> OTelEvent maps (root first or last)"""
+    import itertools
+
+    def shapes(n):
+        # parent vectors: parent[i] < i
+        for par in itertools.product(*[range(i) for i in range(1, n)]):
+            yield (None,) + tuple(par)
+    for n in range(1, n_max + 1):
+        for par in shapes(n):
+            kids = {i: [j for j in range(n) if par[j] == i] for i in range(n)}
+            yield n, par, kids
+
+
+def _job_from(nat, n, par, kids, times, types=None, order=None):
+    evs = {}
+    for i in range(n):
+        s, e = times[i]
+        evs[f"s{i}"] = mk_event(nat, f"s{i}", s, e, etype=(types[i] if types else f"T{i}"), parent=None if par[i] is None else f"s{par[i]}",
+                                children=[f"s{j}" for j in kids[i]])
+    if order:
+        evs = {f"s{i}": evs[f"s{i}"] for i in order}
+    return evs
+
+
+def _gen_job(nat, rng, n):
+    shapes = list(trees(nat, 5))
+    for _ in range(n):
+        k, par, kids = rng.choice(shapes)
+        starts = rng.sample(range(3 * k + 3), k)
+        times = [(s, s + rng.randrange(0, 6)) for s in starts]
+        types = [rng.choice("ABCD") for _ in range(k)]
+        order = list(range(k))
+        rng.shuffle(order)
+        job = _job_from(nat, k, par, kids, times, types, order)
+        for i in range(k):   # child lists in random order
+            rng.shuffle(job[f"s{i}"].child_event_ids)
+        gmap = None
+        r = rng.random()
+        if r < 0.5:
+            gmap = {t: {u: rng.choice(["g1", "g2"]) for u in "ABCD" if rng.random() < 0.5} for t in "ABCD" if rng.random() < 0.5}
+        yield {"event_id_to_event_map": job, "async_flag": rng.random() < 0.5, "event_to_async_group_map": gmap}
+
+
+def _small_job(nat):
+    """every tree shape with <= 4 spans; sibling intervals: a fixed family covering nested / overlapping / disjoint / long-first"""
+    fam = [[(0, 9), (1, 2), (3, 4), (5, 6)], [(0, 1), (2, 3), (4, 5), (6, 7)], [(0, 2), (1, 3), (2, 4), (3, 5)],
+           [(3, 4), (2, 9), (1, 1), (0, 0)], [(0, 0), (0 + 1, 8), (2, 3), (4, 9)]]
+    for k, par, kids in trees(nat, 4):
+        for times in fam:
+            for flag in (False, True):
+                yield {"event_id_to_event_map": _job_from(nat, k, par, kids, times[:k]), "async_flag": flag, "event_to_async_group_map": None}
+        # prior information: all children of the root in one group / an unused group id
+        job = _job_from(nat, k, par, kids, fam[0][:k], types=["R"] + ["A", "B", "A"][:k - 1])
+        yield {"event_id_to_event_map": job, "async_flag": False, "event_to_async_group_map": {"R": {"A": "g1", "B": "g1"}}}
+        job = _job_from(nat, k, par, kids, fam[1][:k], types=["R"] + ["A", "B", "A"][:k - 1])
+        yield {"event_id_to_event_map": job, "async_flag": False, "event_to_async_group_map": {"R": {"A": "g1", "Z": "g2"}}}
+
+
+GEN = {
+    "order_groups_by_start_timestamp": lambda nat, rng, n: ({"groups": _rand_groups(nat, rng, True)} for _ in range(n)),
+    "sequence_groups_of_otel_events_asynchronously": lambda nat, rng, n: ({"groups": _rand_groups(nat, rng)} for _ in range(n)),
+    "group_events_using_async_information": _gen_group_events,
+    "get_root_event_from_event_id_to_event_map": _gen_root,
+    "update_event_type_based_on_children": _gen_rename,
+    "convert_otel_event_stream_to_event_id_to_otelevent_map": _gen_stream,
+    "sequence_otel_event_job": _gen_job,
+}
+SMALL = {
+    "sequence_groups_of_otel_events_asynchronously": _small_async,
+    "group_events_using_async_information": _small_group_events,
+    "sequence_otel_event_job": _small_job,
+}
